@@ -123,7 +123,9 @@ func (s *sut) project() (implState, string) {
 		if !ok {
 			return out, fmt.Sprintf("flush-list reaches %x which is not cached", h)
 		}
-		if n.FlushPrev != prev {
+		// (the head's back link is never read by the code: an entry inserted into an emptied
+		// list inherits the dangling db.newest as flushPrev)
+		if h != st.Oldest && n.FlushPrev != prev {
 			return out, fmt.Sprintf("flush-list back link of node %d is wrong", s.w.ids[h])
 		}
 		out.F = append(out.F, s.w.ids[h])
@@ -132,7 +134,8 @@ func (s *sut) project() (implState, string) {
 		}
 		prev, h = h, n.FlushNext
 	}
-	if st.Newest != prev {
+	// (when the list is empty the code leaves db.newest dangling; insert then resets both ends)
+	if len(out.F) > 0 && st.Newest != prev {
 		return out, "flush-list tail pointer is wrong"
 	}
 	// persistent store: legacy trie nodes are keyed by their hash
